@@ -62,6 +62,24 @@ Proof.
   assert (2 ^ 64 < 10 ^ 20) by (vm_compute; reflexivity). lia.
 Qed.
 
+(** every positive u64 has a digit count (so the theorem is not vacuous) *)
+Lemma ndigits_is_exists : forall (n : nat) m, 0 < m < 10 ^ Z.of_nat n ->
+  exists d, ndigits_is m d /\ d <= Z.of_nat n.
+Proof.
+  induction n as [|n IH]; intros m Hm.
+  - change (10 ^ Z.of_nat 0) with 1 in Hm. lia.
+  - destruct (Z_lt_le_dec m (10 ^ Z.of_nat n)) as [Hlt|Hge].
+    + destruct (IH m ltac:(lia)) as (d & Hd & Hle). exists d. split; [exact Hd|lia].
+    + exists (Z.of_nat (S n)). split; [|lia]. split; [lia|].
+      replace (Z.of_nat (S n) - 1) with (Z.of_nat n) by lia. lia.
+Qed.
+
+Corollary ndigits_is_exists_u64 m : 0 < m < 2 ^ 64 -> exists d, ndigits_is m d /\ d <= 20.
+Proof.
+  intros Hm. apply (ndigits_is_exists 20 m).
+  assert (2 ^ 64 < 10 ^ Z.of_nat 20) by (vm_compute; reflexivity). lia.
+Qed.
+
 Lemma sci_loop_eq b fuel k step m e :
   sci_loop b fuel k step m e =
   if k <=? m then
